@@ -116,7 +116,8 @@ StringList libDependencies(FileName fn)        { return (StringList) 0; }
 void v_comsgFatal(void)                   { g_reported = 1; __CPROVER_assume(0); }
 void v_comsgError(void)                   { g_reported = 1; }
 void v_bug(void)                          { g_diag = 1; __CPROVER_assume(0); }	/* visible abort, does not return */
-void _do_assert(char *str, char *file, int line) { g_diag = 1; __CPROVER_assume(0); }
+int nondet_v_assertions_on(void);
+void _do_assert(char *str, char *file, int line) { if (nondet_v_assertions_on()) { g_diag = 1; __CPROVER_assume(0); } }	/* assertions are off unless -Wcheck: the path may go on */
 void comsgWarning(AbSyn ab, Msg fmt, ...) { /* a warning does not change the exit status */ }
 void exitFailure(void)                    { g_reported = 1; __CPROVER_assume(0); }
 
